@@ -395,6 +395,7 @@ wait:
 				buf := make([]byte, 1<<20)
 				buf = buf[:runtime.Stack(buf, true)]
 				c.Violation("no-progress", "C08/no-progress", "no operation completed for 120 s with %d goroutines still waiting (deadlock?)\n%s", G, clipStr(string(buf), 4000))
+				c.Abort()
 				break wait
 			}
 		}
@@ -479,6 +480,7 @@ func runC08Cyc(c *harness.Ctx, idx int) {
 	outB, errB, err, hung := runSub(fmt.Sprintf("c08cyc|%d|%d", c.Seed, idx), nil, 10*time.Minute)
 	if hung {
 		c.Violation("no-progress", "C08/cyclic-no-progress", "fresh-process episode made no progress for 10 minutes (deadlock?): %s", clipStr(string(errB), 3000))
+		c.Abort()
 		return
 	}
 	out, errb := bytes.NewBuffer(outB), bytes.NewBuffer(errB)
@@ -496,6 +498,9 @@ func runC08Cyc(c *harness.Ctx, idx int) {
 		return
 	}
 	for _, v := range res.Violations {
+		if strings.HasPrefix(v, "no-progress") {
+			c.Abort()
+		}
 		c.Violation("result", "C08/cyclic/"+firstWordsOf(v), "%s", v)
 	}
 	c.Count("operations", int64(res.Ops))
@@ -534,6 +539,7 @@ func RunSubC08Cyc(spec string) {
 		mu.Unlock()
 	}
 	var ops atomic.Int64
+	hung := false
 	for _, fi := range r.Perm(len(c08Families)) {
 		fam := c08Families[fi]
 		var items []*c08Item
@@ -583,6 +589,10 @@ func RunSubC08Cyc(spec string) {
 		case <-time.After(120 * time.Second):
 			buf := make([]byte, 1<<18)
 			note("no-progress: goroutines still blocked after 120 s\n%s", buf[:runtime.Stack(buf, true)])
+			hung = true
+		}
+		if hung {
+			break // the registration lock is gone for good: the other families would only wait as well
 		}
 	}
 	res.Ops = int(ops.Load())
